@@ -141,7 +141,8 @@ def gen_definition(rng, tag):
     d.vectorized = rng.random() < 0.6
     # a scalar (point-by-point) kernel may treat the origin apart and write the limit there as a whole number:
     # "if q == 0: return 1".  The q vectors of such a definition start at the origin.
-    d.block_style = rng.random() < 0.4 or tag == 0
+    d.block_style = rng.random() < 0.4 or tag in (0, 3, 4)
+    d.file_style = tag in (3, 4)
     if tag == 2:
         d.vectorized = False
     d.origin_int = (not d.vectorized) and (rng.random() < 0.6 or tag == 2)
@@ -214,7 +215,13 @@ def c_module(d, name):
         t.append("radius_effective_modes = %r" % ["mode%d" % (i + 1) for i in range(len(d.modes))])
         body = " ".join("if (mode == %d) return %s;" % (i + 1, show(e, False)) for i, e in enumerate(d.modes))
         code.append("static double radius_effective(int mode, %s) { %s return 0.0; }" % (", ".join(sig(d, "vol", True)), body))
-    if code:
+    d._src_text = None
+    if code and getattr(d, "file_style", False):
+        # ... or in a C file of its own next to the definition (every such definition uses the SAME file name, each in
+        # its own directory)
+        d._src_text = "\n".join(code) + "\n"
+        t.append('source = ["verif_c09_src.c"]')
+    elif code:
         t.append('c_code = """\n%s\n"""' % "\n".join(code))
     if d.valid:
         t.append('valid = "%s > %r"' % d.valid)
@@ -447,8 +454,13 @@ def main(run):
         drng = random.Random(7001 + t) if t < 3 else rng
         d = gen_definition(drng, t)
         cname, pname = "verif_c09_c%d_%d" % (run.seed, t), "verif_c09_p%d_%d" % (run.seed, t)
-        cpath, ppath = os.path.join(pdir, cname + ".py"), os.path.join(pdir, pname + ".py")
+        cdir = os.path.join(pdir, "d%d" % t) if getattr(d, "file_style", False) else pdir
+        os.makedirs(cdir, exist_ok=True)
+        cpath, ppath = os.path.join(cdir, cname + ".py"), os.path.join(pdir, pname + ".py")
         open(cpath, "w").write(c_module(d, cname)); open(ppath, "w").write(py_module(d, pname))
+        if d._src_text:
+            open(os.path.join(cdir, "verif_c09_src.c"), "w").write(d._src_text)
+            stats["file_style_definitions"] = stats.get("file_style_definitions", 0) + 1
         desc0 = dict(c_definition=c_module(d, cname), python_definition=py_module(d, pname))
         try:
             mc = core.load_model(cpath, dtype="double", platform="dll")
